@@ -158,7 +158,8 @@ fn body(space: Space, build_kinds: &'static [GraphKind], opts: Vec<Opts>) -> imp
     let with_import = ch.choose("configured_type_import", 2) == 1;
     // a graph built with skip_dynamic_deps records dynamic dependencies whose
     // targets it never loaded: a walk that follows them meets absent entries
-    let skip_dynamic = ch.choose("graph_built_with_skip_dynamic_deps", 2) == 1;
+    // (only in the deviation-bounded parts: the complete core enumeration would double)
+    let skip_dynamic = opts.len() == 36 && ch.choose("graph_built_with_skip_dynamic_deps", 2) == 1;
     let mut outcomes = vec![];
     for build_kind in build_kinds {
       let sched = Sched::new(SchedMode::Immediate);
@@ -303,7 +304,7 @@ fn body_wasm(ch: &Ch) -> Run {
   let view = SlotView::new(&g);
   let root_sets = vec![vec![root.clone()], vec![url("https://x/m.wasm")], vec![url("https://x/a.ts"), url("https://x/m.wasm")], vec![url("https://x/missing.ts")]];
   for roots in &root_sets {
-    for o in all_opts().into_iter().filter(|o| !o.prefer_fast_check) {
+    for o in all_opts() {
       let case = || json!({"world": w.describe, "build_kind": format!("{kind:?}"), "walk_roots": roots.iter().map(|r| r.as_str()).collect::<Vec<_>>(), "options": format!("{o:?}")});
       let skips = matches!(o.check_js, CheckJs::True);
       run.evals += check_walk(&g, &view, roots, &o, &mut run, &case, skips);
@@ -348,7 +349,7 @@ pub fn prop(tier: Tier) -> Prop {
     name: "wasm-imports",
     body: Box::new(body_wasm),
     modes: vec![Mode::Full],
-    what: "graphs with a generated WebAssembly module that imports functions / memories / tables / globals / tags from present and absent specifiers, built with each graph kind, walked under 18 option sets from 4 root sets",
+    what: "graphs with a generated WebAssembly module that imports functions / memories / tables / globals / tags from present and absent specifiers, built with each graph kind, walked under all 36 option sets from 4 root sets",
   });
   parts.push(Part {
     name: "fast-check",
@@ -377,7 +378,7 @@ pub fn prop(tier: Tier) -> Prop {
     id: "C15",
     rule: "state = (world, configured type import yes/no); per state the built graph(s) are walked from every root set of <= 2 world specifiers (incl. redirect sources, error entries, absent ones) under all 36 option sets (3 kinds x follow_dynamic x check_js True/False/Custom x prefer_fast_check) and with skip_previous_dependencies() after each single yielded entry and after every entry; the yielded set (no duplicates) and the keyed error listing are compared with a set-based reference fixpoint over the graph's public data. Non-trivial = world with >= 2 edges or a non-default import form.".into(),
     assumptions: vec![
-      "reference reachability is computed from Module::dependencies()/dependencies_prefer_fast_check(), maybe_types_dependency, redirects and imports as exposed by the public API; the slot table is read from the serialised graph".into(),
+      "reference reachability is computed from Module::dependencies(), the fast_check field of JS modules, maybe_types_dependency, redirects and imports as exposed by the public API; the slot table is read from the serialised graph".into(),
       "errors are compared as keys (slot:<specifier>, code-res/type-res:<referrer range>) - duplicates of one key collapse".into(),
       "generic worlds carry no fast-check modules (prefer_fast_check then equals the plain walk); graphs with fast-check modules are walked in the part fast-check (packages of the C09-C11 generator, 2 declaration slots)".into(),
     ],
